@@ -44,6 +44,11 @@ func RunReplay(t *testing.T, path string, harness func()) {
 	if err := json.Unmarshal(b, &rf); err != nil {
 		t.Fatalf("replay file: %v", err)
 	}
+	mu.Lock()
+	names = map[string]int{} // the test may be repeated (-count) in one process
+	failures = nil
+	assumeBad = false
+	mu.Unlock()
 	baseG = runtime.NumGoroutine()
 	done := make(chan struct{})
 	go func() {
